@@ -17,6 +17,7 @@ EXPLANATION = (
     "and sample-wise closeness, indices are range-checked, and both bounds of the slice returned by _check_slice are provably >= 0 on every path (symbolic-bounds prover, pstatic/bounds.py: a negative bound would wrap around). GUARD: Waveform.__init__ rejects non-positive durations; Pulse.__init__ rejects negative amplitude and unequal durations and reduces both phases modulo 2*pi. "
     "DIV0: under the class invariant _duration >= 1 (derived from the constructor's rejection) no denominator of the form (_duration - c) can be zero unguarded. "
     "NOT decided: areas, maxima, interpolation values (numeric contracts of Blackman/Kaiser/Interpolated waveforms)."
+    ' Round 4 (added): SIB -- every quantity KaiserWaveform.from_max_val compares with max_val is the same expression of the tried window (max(window) * 1000 * area / sum(window)); the sample index of an interpolation point is round(t * (duration - 1)), not a truncation.'
 )
 ASSUMPTIONS = ["the scaling spec (which parameters are linear) is written from the property statement in tables/waveforms_c16.json"]
 
